@@ -287,13 +287,17 @@ func c14Hygiene(t *rapid.T, s *Session, history []string, code int, previewMayRu
 	}
 	// 1. tty settings
 	var before, after []byte
-	for i := 0; i < 100; i++ {
+	for i := 0; i < 3000; i++ {
 		before, _ = os.ReadFile(filepath.Join(s.Dir, "stty.before"))
 		after, _ = os.ReadFile(filepath.Join(s.Dir, "stty.after"))
-		if len(after) > 0 {
+		if len(after) > 0 && after[len(after)-1] == '\n' {
 			break
 		}
 		time.Sleep(10 * time.Millisecond)
+	}
+	if len(after) == 0 {
+		// the wrapper shell has not got to run stty within 30 s after fzf exited (machine overloaded)
+		infra(t, "stty.after was not written within 30 s")
 	}
 	if string(before) != string(after) {
 		t.Fatalf("terminal settings not restored: stty -g before %q, after %q\nhistory:\n  %s", strings.TrimSpace(string(before)), strings.TrimSpace(string(after)), h)
